@@ -12,7 +12,8 @@ EXPLANATION = (
     "that does not depend on the index parameter (no hidden shared state is mutated). R2 (split): in the parallel producer's split() exactly one BitProducer::split consumes self.keys; the first "
     "returned producer is built from component 0 and the second - unconditionally, through Option::map only - from component 1 of that split, both "
     "with self.values; no producer or key set is cloned or filtered; fold_with consumes keys once and asks J::get with the iterator's item; "
-    "drive_unindexed opens the join once and wraps the mask's own iterator. R3 (same items): for every type with both Join and ParJoin the masks are "
+    "drive_unindexed opens the join once and hands rayon a producer whose keys are BitSetLike::iter of that opened mask and nothing else (no hand-assembled, "
+    "pre-advanced or filtered iterator state between open() and the producer) with those opened values. R3 (same items): for every type with both Join and ParJoin the masks are "
     "identical and, where the Value types agree, open()/get() agree on their callee abstraction. W1/W2/W8: par_join / join over tracked storages and "
     "sending the shared item of a tracked storage to another thread do not compile; the VecStorage twins do."
 )
